@@ -124,7 +124,9 @@ ExoRejected(c)   == /\ ExoNames(c.vars) # {}
                        \/ ExoLen(c, HorizonOf(c)) < HorizonOf(c) + 1
 
 ICNames(c) == { c.ics[i].name : i \in 1..Len(c.ics) }
-ICVal(c, n) == c.ics[CHOOSE i \in 1..Len(c.ics) : c.ics[i].name = n].val
+(* an initial condition may be stated more than once for a variable: the LAST statement is in force *)
+ICVal(c, n) == LET idx == { i \in 1..Len(c.ics) : c.ics[i].name = n }
+               IN c.ics[CHOOSE i \in idx : \A j \in idx : j <= i].val
 ICRejected(c) == Len(c.ics) > 0 /\ c.icform = "undef"
 
 (* the input forms the statement says are rejected with an error *)
@@ -303,7 +305,7 @@ C10_ExoVerbatim ==
 
 C10_ICVerbatim ==
     Done => \A i \in 1..Len(cfg.ics) :
-                cfg.ics[i].name \in Names(vlist) => series[cfg.ics[i].name][1] = cfg.ics[i].val
+                cfg.ics[i].name \in Names(vlist) => series[cfg.ics[i].name][1] = ICVal(cfg, cfg.ics[i].name)
 
 C10_LagShift ==
     Done => \A i \in LagIdx(vlist) : \A k \in 1..horizon :
